@@ -350,6 +350,23 @@ impl Property for C11 {
         }
         out
     }
+    /// libFuzzer input: target, line-break style, then 1-8 parts (kind, variant, end marker,
+    /// trailing comment)
+    fn fuzz_decode(data: &[u8]) -> Option<(&'static str, Case, bool)> {
+        let mut b = engine::Bytes::new(data);
+        let target = b.pick(&[Target::Untyped, Target::IntMap, Target::Cmd]);
+        let crlf = b.bool();
+        let n = 1 + b.below(8);
+        let parts: Vec<Part> = (0..n)
+            .map(|_| {
+                let flags = b.u8();
+                Part { kind: b.pick(&KINDS), variant: flags % 3, end_marker: flags & 16 != 0, trailing_comment: flags & 32 != 0 }
+            })
+            .collect();
+        let c = Case { parts, target, crlf };
+        let nt = nontrivial(&c);
+        Some(("fuzz-streams", c, nt))
+    }
     fn generate(ctx: &mut Ctx<Self>) {
         let maxlen = ctx.tier.pick(3, 4);
         let mut idx = 0u64;
